@@ -229,13 +229,10 @@ class Wve(Cont):
 class Mpc2k(Cont):
     name, major = "mpc2k", 0x21
     rates = [1, 2, 8000, 44100, 65535, 65536, 65537, 96000, 131072, 2 ** 31 - 65536, 2 ** 31 - 1]
-    kf_ids = ("KF-RATE16-WRAP",)
 
     def quant(self, sr):
-        return sr % 65536
-
-    def known(self, j, frames_total, probs):
-        return "KF-RATE16-WRAP" if j.sr % 65536 == 0 else None
+        """the 16-bit field saturates (KF-RATE16-WRAP repaired: it used to hold the rate modulo 65536, 0 for multiples of 65536)"""
+        return min(sr, 65535)
 
     def size_problems(self, j, b, frames):
         out = []
@@ -245,7 +242,7 @@ class Mpc2k(Cont):
         want = ((len(b) - 42) // (2 * j.ch)) % 2 ** 32
         if (a, c, d) != (want, want, want):
             out.append("frame count fields %d/%d/%d, file holds %d frames" % (a, c, d, want))
-        if struct.unpack("<H", b[40:42])[0] != j.sr % 65536:
+        if struct.unpack("<H", b[40:42])[0] != min(j.sr, 65535):
             out.append("rate field %d for %d Hz" % (struct.unpack("<H", b[40:42])[0], j.sr))
         return out
 
@@ -268,7 +265,7 @@ class Pvf(Cont):
     name, major = "pvf", 0x0E
     rates = [1, 2, 9, 10, 99, 100, 8000, 44100, 65536, 999999999, 1000000000, 2 ** 31 - 1]
     rewrites = True     # no length in the header, but header updates are accepted and must leave a valid file
-    kf_ids = ("KF-PVF-SHORT-HEADER", "KF-PVF-TINY-FILE")
+    kf_ids = ("KF-PVF-TINY-FILE",)      # KF-PVF-SHORT-HEADER is repaired: an 11-byte header with audio behind it must re-open exactly
 
     def channels(self, f):
         return [c for c in (1, 2, 3, 9, 10, 11) if c <= f.maxch]
@@ -286,10 +283,16 @@ class Pvf(Cont):
         return out
 
     def known(self, j, frames_total, probs):
-        if len(self.text(j)) < 12:
-            # 11-byte header: with no audio the file is shorter than the 12 bytes the type detection reads
-            return "KF-PVF-TINY-FILE" if any("fails" in p or "cannot be opened" in p for p in probs) and (j.n == 0 or j.parts[0] == 0) else "KF-PVF-SHORT-HEADER"
-        return None
+        """KF-PVF-TINY-FILE: an image (closed file / header-update image) shorter than the 12 bytes the type detection reads - an
+        11-byte header with no audio behind it - cannot be opened.  Nothing else is waived."""
+        hl = len(self.text(j))
+        for p in probs:
+            if p.startswith("re-open of the closed file fails") and hl + j.n * j.bw < 12:
+                continue
+            if p.startswith("[C11] the image left by the header update cannot be opened") and hl + j.parts[0] * j.bw < 12:
+                continue
+            return None
+        return "KF-PVF-TINY-FILE" if probs else None
 
     def hdr_len(self, b):
         return b.index(b"\n", 5) + 1 if b"\n" in b[5:] else len(b)
